@@ -198,43 +198,63 @@ def check(repo, res, tier):
                       "; ".join(problems), node=f.node)
 
     # ------------------------------------------------------------------ S3 R-INIT
-    ifj = repo.func(M.M_UTILS, "integrateFuncJac")
+    # jac / jacIV interpreted with the integrator replaced by a recorder: what is integrated, from where, over which times
     for name, pair, iv in (("jac", ("ode_and_sensitivity_T", "ode_and_sensitivity_jacobian_T"), False),
                            ("jacIV", ("ode_and_sensitivityIV_T", "ode_and_sensitivityIV_jacobian_T"), True)):
         f = bl.methods[name]
-        df = dataflow_of(f)
-        cs = C.calls_to(f, "integrateFuncJac")
-        res.floor("%s integration call sites" % name, len(cs), 2)
-        for k, (n, c, callee) in enumerate(cs):
-            b = C.bind_args(c, ifj.params)
-            problems = []
-            if norm(b.get("func")) != "self._ode." + pair[0] or norm(b.get("jac")) != "self._ode." + pair[1]:
-                problems.append("func/jac = %s / %s" % (norm(b.get("func")), norm(b.get("jac"))))
-            if norm(b.get("t0")) != "self._t[0]" or norm(b.get("t")) not in ("self._t[1:]", "self._t[1::]"):
-                problems.append("time arguments %s, %s" % (norm(b.get("t0")), norm(b.get("t"))))
-            io = b.get("includeOrigin")
-            if io is not None and const_value(io) not in (False, 0):
-                problems.append("includeOrigin=%s shifts rows against the observations" % norm(io))
-            x0 = df.expand(b.get("x0"), n) if b.get("x0") is not None else None
-            want0 = "np.append(self._x0, np.zeros(self._num_state * self._num_param))"
-            if iv:
-                ok0 = norm(x0) in ("np.append(%s, np.eye(self._num_state).flatten())" % want0, "np.append(%s, np.eye(self._num_state).flatten('F'))" % want0,
-                                   "np.append(%s, np.eye(self._num_state).ravel())" % want0)
-            else:
-                ok0 = norm(x0) == want0
-            if not ok0:
-                problems.append("initial condition is %s" % norm(x0))
-            res.check(not problems, "R-INIT", f, "integration#%d" % k,
-                      "integrates (%s, %s) from [x0; zeros%s] over (t[0], t[1:])" % (pair[0], pair[1], "; identity" if iv else ""),
-                      "; ".join(problems), node=c)
-        # the returned sensitivities are the integration result itself
-    # index_out for jacIV = parameter block then state block
-    f = bl.methods["jacIV"]
-    df = dataflow_of(f)
-    ds = [d for d in df.defs if d.name == "index_out" and d.kind == "assign"]
-    ok = len(ds) == 1 and isinstance(ds[0].value, ast.BinOp) and isinstance(ds[0].value.op, ast.Add)
-    if ok:
-        l, r = df.expand(ds[0].value.left, ds[0].node), df.expand(ds[0].value.right, ds[0].node)
-        ok = norm(l) == "self._getTargetParamSensIndex()" and norm(r) == "self._getTargetStateSensIndex()"
-    res.check(ok, "R-INIT", f, "index-order", "selected columns = parameter sensitivities then initial-value sensitivities",
-              "jacIV selects columns %s" % [norm(d.value) for d in ds])
+        for full in (False, True):
+            for sens_output in ((False, True) if not full else (False,)):
+                sn = ["R", "S"]
+                me = loss_self(sn, ["b", "a"], ["I"] if iv else None, n_t)
+                x0 = SymArr.symbols("x0", (nS,))
+                me.attrs.update({"_x0": x0, "_t": [0.0, 1.0, 2.5], "_theta": Tok("theta")})
+                me.attrs["_ode"].attrs.update({"__open__": True, "_intName": None})
+                me.attrs["_lossObj"] = Obj("Kernel")
+                rec = {}
+
+                def integ(func, jac, x0_, t0, t, **kw):
+                    rec["args"] = (func, jac, x0_, t0, list(t), dict(kw))
+                    return (X.copy(), {"info": Tok("info")}) if kw.get("full_output") else X.copy()
+                summ3, types3 = summaries(bl, repo, chain)
+                summ3.update({"ode_utils.integrateFuncJac": integ, "Loss._setParam": lambda m_, th: None, "Loss._setParamStateInput": lambda m_, th: None,
+                              "set:Model.parameters": lambda o, v: rec.__setitem__("params", v),
+                              "Kernel.residual": lambda k_, y_, *a, **kw: Tok("resid"), "Kernel.diff_loss": lambda k_, y_, *a, **kw: Tok("dl")})
+                tag = "%s(full_output=%s,sens_output=%s)" % (name, full, sens_output)
+                try:
+                    kind, out = Abs({}, types3, summ3, me).run_function(f.node, {"theta": Tok("th"), "sens_output": sens_output, "full_output": full, "method": None})
+                except A.Undecided as e:
+                    res.undecided("R-INIT", f, tag, "outside the modelled subset: %s" % e)
+                    continue
+                problems = []
+                a = rec.get("args")
+                if kind != "return" or a is None:
+                    problems.append("%s %s without integrating" % (kind, out))
+                else:
+                    if a[0] != ("method", pair[0]) or a[1] != ("method", pair[1]):
+                        problems.append("integrates (%s, %s), expected (%s, %s)" % (a[0], a[1], pair[0], pair[1]))
+                    want0 = append(x0, SymArr.zeros((nS * nP,)))
+                    if iv:
+                        want0 = append(want0, SymArr.eye(nS).flatten())
+                    if not (isinstance(a[2], SymArr) and a[2].size == want0.size and all(p_ == q_ for p_, q_ in zip(a[2].flat, want0.flat))):
+                        problems.append("initial condition is %s, expected [x0; zeros(nS*nP)%s]" % (a[2], "; vec(identity)" if iv else ""))
+                    if a[3] != 0.0 or a[4] != [1.0, 2.5]:
+                        problems.append("integrates from %r over %r, expected t[0] and t[1:]" % (a[3], a[4]))
+                    if a[5].get("includeOrigin") not in (None, False):
+                        problems.append("includeOrigin=%r shifts the rows against the observations" % a[5].get("includeOrigin"))
+                    if rec.get("params") != Tok("theta"):
+                        problems.append("the model's parameters are not set to self._theta before integrating")
+                    # what is handed back: the selected sensitivity columns (parameters first, then initial values)
+                    st_idx = [STATES.index(s_) for s_ in sn]
+                    cols = [nS + PARAMS.index(p_) * nS + s_ for p_ in ("b", "a") for s_ in st_idx]
+                    if iv:
+                        cols += [nS + nS * nP + STATES.index("I") * nS + s_ for s_ in st_idx]
+                    first = out[0] if isinstance(out, tuple) else out
+                    if not (isinstance(first, SymArr) and first.same(X[:, cols])):
+                        problems.append("the Jacobian handed back is not the target sensitivity columns in supplied order")
+                    if sens_output and not full and not (isinstance(out, tuple) and isinstance(out[1], SymArr) and out[1].same(X)):
+                        problems.append("sens_output does not return the full integration result")
+                    if full and not (isinstance(out, tuple) and isinstance(out[1], dict) and isinstance(out[1].get("sens"), SymArr) and out[1]["sens"].same(X)):
+                        problems.append("full_output['sens'] is not the integration result")
+                res.check(not problems, "R-INIT", f, tag,
+                          "integrates (%s, %s) from [x0; zeros%s] over (t[0], t[1:]) at self._theta and hands back the target columns" % (pair[0], pair[1], "; identity" if iv else ""),
+                          "; ".join(problems), node=f.node)
